@@ -1,0 +1,43 @@
+//go:build verif
+// +build verif
+
+package linker
+
+// Export for the /verif correspondence harness (build tag "verif" only). Add-only.
+
+import (
+	"github.com/evanw/esbuild/internal/ast"
+	"github.com/evanw/esbuild/internal/config"
+	"github.com/evanw/esbuild/internal/graph"
+	"github.com/evanw/esbuild/internal/js_ast"
+)
+
+// VerifMPFile is one reachable file of a hand-built link for VerifMangleProps.
+type VerifMPFile struct {
+	SourceIndex uint32
+	IsJS        bool
+	Reserved    map[string]bool
+	Mangled     map[string]ast.Ref
+	CharFreq    *ast.CharFreq
+}
+
+// VerifMangleProps runs the real mangleProps on a hand-built graph: the reachable files in the given
+// order (a file that is not JavaScript gets a CSS representation), the symbol table, the stable source
+// indices and the mangle cache (mutated in place, may be nil). It returns the linker's mangledProps table.
+func VerifMangleProps(nFiles int, reachable []VerifMPFile, symbols ast.SymbolMap, stable []uint32, cache map[string]interface{}) map[ast.Ref]string {
+	c := &linkerContext{options: &config.Options{}}
+	c.graph.Files = make([]graph.LinkerFile, nFiles)
+	c.graph.Symbols = symbols
+	c.graph.StableSourceIndices = stable
+	for _, f := range reachable {
+		c.graph.ReachableFiles = append(c.graph.ReachableFiles, f.SourceIndex)
+		if f.IsJS {
+			c.graph.Files[f.SourceIndex].InputFile.Repr = &graph.JSRepr{AST: js_ast.AST{
+				ReservedProps: f.Reserved, MangledProps: f.Mangled, CharFreq: f.CharFreq}}
+		} else {
+			c.graph.Files[f.SourceIndex].InputFile.Repr = &graph.CSSRepr{}
+		}
+	}
+	c.mangleProps(cache)
+	return c.mangledProps
+}
